@@ -328,5 +328,5 @@ class DM:
             protograd = warp(protograd, self.invprojx, self.invprojy)
 
         # return protograd
-        in_actuator_space = fft.fftshift(apply_transfer_functions(protograd, None, np.conj(self.tf), shift=False))
+        in_actuator_space = fft.ifftshift(apply_transfer_functions(protograd, None, np.conj(self.tf), shift=False))
         return in_actuator_space[self.iyy, self.ixx]
